@@ -72,6 +72,12 @@ def _apply(v: Variant, root: str) -> Optional[str]:
                     with open(p, "w") as fh:
                         fh.write(ast.unparse(t) + "\n")
         return None
+    if v.func == "apply-patch":
+        import subprocess
+        r = subprocess.run(["git", "apply", "--whitespace=nowarn", v.file], cwd=root, stdout=subprocess.PIPE, stderr=subprocess.STDOUT)
+        if r.returncode != 0:
+            return "patch no longer applies to the current tree (%s)" % r.stdout.decode(errors="replace").strip().splitlines()[-1][:120]
+        return None
     if v.func in ("return-via-local", "negate-ifs", "split-chains"):
         fn = {"return-via-local": return_via_local, "negate-ifs": negate_ifs, "split-chains": split_chains}[v.func]
         for dirpath, _, files in os.walk(os.path.join(root, "gpytorch")):
@@ -125,7 +131,7 @@ def _run_variant(args) -> dict:
         if why is not None:
             return {"name": v.name, "verdict": "skipped", "why": why}
         # the scratch copy must still compile
-        for f in {v.file} | {e[0] for e in (v.edits or [])} if v.file else set():
+        for f in ({v.file} | {e[0] for e in (v.edits or [])}) if (v.file and not v.func) else set():
             with open(os.path.join(tmp, f)) as fh:
                 try:
                     ast.parse(fh.read())
@@ -294,12 +300,34 @@ GENERIC = [
 ]
 
 
+def seed_variants(prop: str) -> List[Variant]:
+    """the kept independent seeded changes (seeded/<id>/patch.diff) that this property's check is recorded to report: each must
+    keep being reported by (one of) the recorded rule(s)"""
+    import glob
+    import json
+    out = []
+    base = os.path.join(os.path.dirname(os.path.dirname(os.path.abspath(__file__))), "seeded")
+    for mf in sorted(glob.glob(os.path.join(base, "*", "meta.json"))):
+        try:
+            m = json.load(open(mf))
+        except Exception:
+            continue
+        if prop not in m.get("caught_by_checks", []):
+            continue
+        rules = sorted({v.split()[1] for v in m.get("violations", {}).get(prop, []) if v.startswith("violated")})
+        patch = os.path.join(os.path.dirname(mf), "patch.diff")
+        if not rules or not os.path.isfile(patch):
+            continue
+        out.append(Variant("independent seeded change %s (%s)" % (m["id"], "/".join(rules)), patch, func="apply-patch", expect="fire", rule=rules[0] if len(rules) == 1 else None))
+    return out
+
+
 def load_variants(prop: str) -> List[Variant]:
     try:
         mod = importlib.import_module("selftest.variants.%s" % prop.lower())
     except ModuleNotFoundError:
-        return list(GENERIC)
-    return list(mod.VARIANTS) + list(GENERIC)
+        return list(GENERIC) + seed_variants(prop)
+    return list(mod.VARIANTS) + list(GENERIC) + seed_variants(prop)
 
 
 def self_validate(prop: str, repo: str, rep, jobs: int = 16) -> dict:
